@@ -1,6 +1,8 @@
 package optimizer
 
 import (
+	"reflect"
+
 	. "github.com/antonmedv/expr/ast"
 )
 
@@ -12,6 +14,16 @@ func (*inRange) Exit(node *Node) {
 	case *BinaryNode:
 		if n.Operator == "in" || n.Operator == "not in" {
 			if rng, ok := n.Right.(*BinaryNode); ok && rng.Operator == ".." {
+				if t := n.Left.Type(); t != nil {
+					switch t.Kind() {
+					case reflect.Int, reflect.Int8, reflect.Int16, reflect.Int32, reflect.Int64,
+						reflect.Uint, reflect.Uint8, reflect.Uint16, reflect.Uint32, reflect.Uint64:
+					default:
+						// Membership in a range of integers equals the two-sided
+						// comparison only for an integer on the left.
+						return
+					}
+				}
 				if from, ok := rng.Left.(*IntegerNode); ok {
 					if to, ok := rng.Right.(*IntegerNode); ok {
 						Patch(node, &BinaryNode{
